@@ -13,6 +13,8 @@ n = 2) run on the same inputs, also at orders the kernel-evaluated `_upto`
 theorems do not reach.
 """
 import itertools
+import os
+import random
 
 import numpy as np
 
@@ -33,6 +35,14 @@ DFC_FN = ("fun c => let '(p, cs) := c in (distances_from_coordinates p cs, "
           "map (distance_from_coordinate_state p) cs)")
 
 BATCH = 256
+
+# deadline for one plan item on the implementation side (seconds): base + per-input share;
+# the first call of a process also pays the JIT compilation (10-25 s, more under load)
+IMPL_TIMEOUT = float(os.environ.get('VERIF_IMPL_TIMEOUT', '90'))
+
+
+def deadline(ninputs):
+    return IMPL_TIMEOUT + ninputs / 1000.0
 
 
 def guard(p, n):
@@ -218,6 +228,88 @@ def direct_checks(rep, label, p, n, hs, coords_of_hs, cells, ds_of_cells):
 
 
 # --------------------------------------------------------------------------
+# the implementation side of one plan item (runs in the child process)
+# --------------------------------------------------------------------------
+class MiniRep:
+    def __init__(self, seed):
+        self.rng = random.Random(seed)
+        self.violations = []
+        self.hist = {}
+
+    def violation(self, signature, what, replay):
+        self.violations.append((signature, what, C.jsonable(replay)))
+
+    def count(self, cls, n=1):
+        self.hist[cls] = self.hist.get(cls, 0) + n
+
+
+def impl_item(label, p, n, hs, cells, seed):
+    """every real-code call for one (p, n): results of the four entry points + the direct checks"""
+    mr = MiniRep(seed)
+    out = {'vec': None, 'dvec': None, 'states': None, 'evaluations': 0}
+    try:
+        vec = U.cfd_vector(p, n, hs)
+        sca = U.cfd_scalar(p, n, hs)
+    except Exception as e:
+        mr.violation('raises:cfd', f'coordinate(s)_from_distance(s) raised {type(e).__name__}: {e}',
+                     {'dir': 'cfd', 'p': p, 'n': n, 'hs': hs[:50]})
+        return {**out, 'violations': mr.violations, 'hist': mr.hist}
+    out['evaluations'] += 2 * len(hs)
+    if sca != vec:
+        i = next(i for i in range(len(hs)) if sca[i] != vec[i])
+        mr.violation('scalar-vs-vectorised:cfd',
+                     'coordinate_from_distance and coordinates_from_distances disagree',
+                     {'dir': 'cfd', 'p': p, 'n': n, 'hs': [hs[i]], 'scalar': sca[i], 'vector': vec[i]})
+    if any(x < 0 for row in vec for x in row):
+        i = next(i for i in range(len(hs)) if any(x < 0 for x in vec[i]))
+        mr.violation('range:coordinate', 'negative coordinate',
+                     {'dir': 'cfd', 'p': p, 'n': n, 'hs': [hs[i]], 'impl': vec[i]})
+        return {**out, 'violations': mr.violations, 'hist': mr.hist}
+    try:
+        dvec, untouched = U.dfc_vector(p, cells)
+        dsca, states = U.dfc_scalar(p, cells)
+    except Exception as e:
+        mr.violation('raises:dfc', f'distance(s)_from_coordinate(s) raised {type(e).__name__}: {e}',
+                     {'dir': 'dfc', 'p': p, 'n': n, 'cells': cells[:50]})
+        return {**out, 'violations': mr.violations, 'hist': mr.hist}
+    out['evaluations'] += 2 * len(cells)
+    if not untouched:
+        mr.violation('vectorised-mutates', 'distances_from_coordinates modified its argument',
+                     {'dir': 'dfc', 'p': p, 'n': n, 'cells': cells[:20]})
+    if dsca != dvec:
+        i = next(i for i in range(len(cells)) if dsca[i] != dvec[i])
+        mr.violation('scalar-vs-vectorised:dfc',
+                     'distance_from_coordinate and distances_from_coordinates disagree',
+                     {'dir': 'dfc', 'p': p, 'n': n, 'cells': [cells[i]], 'scalar': dsca[i],
+                      'vector': dvec[i]})
+    if any(d < 0 for d in dvec) or any(x < 0 for s in states for x in s):
+        i = next(i for i in range(len(cells)) if dvec[i] < 0 or any(x < 0 for x in states[i]))
+        mr.violation('range:distance', 'negative distance / state',
+                     {'dir': 'dfc', 'p': p, 'n': n, 'cells': [cells[i]], 'impl': dvec[i]})
+        return {**out, 'violations': mr.violations, 'hist': mr.hist}
+    direct_checks(mr, label, p, n, hs, vec, cells, dvec)
+    return {'vec': vec, 'dvec': dvec, 'states': states, 'evaluations': out['evaluations'],
+            'violations': mr.violations, 'hist': mr.hist}
+
+
+def impl_samples():
+    return [{'p': 3, 'n': 2, 'distance': 37, 'coordinate': U.cfd_vector(3, 2, [37])[0]},
+            {'p': 31, 'n': 2, 'distance': (1 << 62) - 1,
+             'coordinate': U.cfd_vector(31, 2, [(1 << 62) - 1])[0]}]
+
+
+IMPL_TABLE = {'impl_item': impl_item, 'impl_samples': impl_samples}
+
+
+def merge(rep, out):
+    for sig, what, rp in out['violations']:
+        rep.violation(sig, what, rp)
+    for k, v in out['hist'].items():
+        rep.count(k, v)
+    rep.evaluations += out['evaluations']
+
+
+# --------------------------------------------------------------------------
 def run(rep):
     tier = getattr(rep, 'tier_run', rep.tier)
     rep.rule = ('(p, n) with 1 <= p, 1 <= n, n*p <= 62: every distance and every cell for p <= 5 '
@@ -227,60 +319,36 @@ def run(rep):
                 'vectorised entry point; batches of %d inputs are one kernel-evaluated case; '
                 'non-trivial = a distinct (direction, p, n, input) with p >= 2; '
                 'evaluations = inputs x entry points' % BATCH)
-    H = U.hilbert_mod()
+    runner = U.ImplRunner(IMPL_TABLE)
     cfd_cases, cfd_res, cfd_meta = [], [], []
     dfc_cases, dfc_res, dfc_meta = [], [], []
     for label, p, n, hs, cells in plan(rep, tier):
         rep.count(f'{label}:n={n}')
-        # ---- distance -> coordinate
         try:
-            vec = U.cfd_vector(p, n, hs)
-            sca = U.cfd_scalar(p, n, hs)
-        except Exception as e:
-            rep.violation('raises:cfd', f'coordinate(s)_from_distance(s) raised {type(e).__name__}: {e}',
-                          {'dir': 'cfd', 'p': p, 'n': n, 'hs': hs[:50]})
+            out = runner.call('impl_item', (label, p, n, hs, cells, rep.seed * 1000 + 64 * p + n),
+                              deadline(len(hs) + len(cells)))
+        except U.ImplHang as e:
+            rep.violation('impl-hangs', f'the Hilbert kernels did not return ({e}) for p={p}, n={n}',
+                          {'dir': 'hang', 'p': p, 'n': n, 'hs': hs[:50], 'cells': cells[:50],
+                           'label': label})
+            if runner.hangs >= 2:
+                rep.count('aborted_after_two_hangs')
+                break
             continue
-        rep.evaluations += len(hs) * (2 if sca is not None else 1)
-        if sca is not None and sca != vec:
-            i = next(i for i in range(len(hs)) if sca[i] != vec[i])
-            rep.violation('scalar-vs-vectorised:cfd',
-                          'coordinate_from_distance and coordinates_from_distances disagree',
-                          {'dir': 'cfd', 'p': p, 'n': n, 'hs': [hs[i]], 'scalar': sca[i], 'vector': vec[i]})
-        if any(x < 0 for row in vec for x in row):
-            i = next(i for i in range(len(hs)) if any(x < 0 for x in vec[i]))
-            rep.violation('range:coordinate', 'negative coordinate',
-                          {'dir': 'cfd', 'p': p, 'n': n, 'hs': [hs[i]], 'impl': vec[i]})
+        except U.ImplCrash as e:
+            rep.violation('impl-crashes', f'the implementation process failed for p={p}, n={n}: {e}',
+                          {'dir': 'hang', 'p': p, 'n': n, 'hs': hs[:50], 'cells': cells[:50],
+                           'label': label})
             continue
-        # ---- coordinate -> distance
-        try:
-            dvec, untouched = U.dfc_vector(p, cells)
-            dsca, states = U.dfc_scalar(p, cells)
-        except Exception as e:
-            rep.violation('raises:dfc', f'distance(s)_from_coordinate(s) raised {type(e).__name__}: {e}',
-                          {'dir': 'dfc', 'p': p, 'n': n, 'cells': cells[:50]})
-            continue
-        rep.evaluations += len(cells) * (2 if dsca is not None else 1)
-        if not untouched:
-            rep.violation('vectorised-mutates', 'distances_from_coordinates modified its argument',
-                          {'dir': 'dfc', 'p': p, 'n': n, 'cells': cells[:20]})
-        if dsca is not None and dsca != dvec:
-            i = next(i for i in range(len(cells)) if dsca[i] != dvec[i])
-            rep.violation('scalar-vs-vectorised:dfc',
-                          'distance_from_coordinate and distances_from_coordinates disagree',
-                          {'dir': 'dfc', 'p': p, 'n': n, 'cells': [cells[i]], 'scalar': dsca[i],
-                           'vector': dvec[i]})
-        if any(d < 0 for d in dvec) or (states is not None and any(x < 0 for s in states for x in s)):
-            i = next(i for i in range(len(cells))
-                     if dvec[i] < 0 or (states is not None and any(x < 0 for x in states[i])))
-            rep.violation('range:distance', 'negative distance / state',
-                          {'dir': 'dfc', 'p': p, 'n': n, 'cells': [cells[i]], 'impl': dvec[i]})
+        merge(rep, out)
+        vec, dvec, states = out['vec'], out['dvec'], out['states']
+        if vec is None or dvec is None:
             continue
         if p >= 2:
             for h in hs[:2000]:
                 rep.nontrivial(('cfd', p, n, h))
             for c in cells[:2000]:
                 rep.nontrivial(('dfc', p, n, tuple(c)))
-        direct_checks(rep, label, p, n, hs, vec, cells, dvec)
         # ---- batches for the kernel
         for lo in range(0, len(hs), BATCH):
             cfd_cases.append((C.Nat(p), C.Nat(n), U.nlist(hs[lo:lo + BATCH])))
@@ -291,9 +359,14 @@ def run(rep):
             dfc_cases.append((C.Nat(p), U.nrows(cells[lo:lo + BATCH])))
             dfc_res.append((U.nlist(dvec[lo:lo + BATCH]), U.nrows(st) if st is not None else None))
             dfc_meta.append((p, n, cells[lo:lo + BATCH], dvec[lo:lo + BATCH], st))
-    rep.sample({'p': 3, 'n': 2, 'distance': 37, 'coordinate': U.cfd_vector(3, 2, [37])[0]})
-    rep.sample({'p': 31, 'n': 2, 'distance': (1 << 62) - 1,
-                'coordinate': U.cfd_vector(31, 2, [(1 << 62) - 1])[0]})
+    try:
+        if runner.hangs < 2:
+            for smp in runner.call('impl_samples', (), deadline(2)):
+                rep.sample(smp)
+    except (U.ImplHang, U.ImplCrash) as e:
+        rep.violation('impl-hangs', f'the Hilbert kernels did not return for the sample inputs ({e})',
+                      {'dir': 'hang', 'p': 31, 'n': 2, 'hs': [37, (1 << 62) - 1], 'cells': []})
+    runner.close()
 
     # distance -> coordinate against the model
     bad = C.coq_mismatches(IMPORTS, CFD_FN, CFD_TY, CFD_RES, cfd_cases, cfd_res, shard=24)
@@ -374,45 +447,39 @@ def locate_dfc(p, cells, dvec, st):
 
 def replay(rep, rp):
     p, n = int(rp['p']), int(rp['n'])
+    hs = [int(h) for h in rp.get('hs', [])]
+    cells = [[int(x) for x in c] for c in rp.get('cells', [])]
+    runner = U.ImplRunner(IMPL_TABLE)
+    try:
+        out = runner.call('impl_item', (rp.get('label', 'sample'), p, n, hs, cells, 1),
+                          deadline(len(hs) + len(cells)))
+    except U.ImplHang as e:
+        print('the implementation does not return:', e)
+        return False
+    except U.ImplCrash as e:
+        print('the implementation process failed:', e)
+        return False
+    finally:
+        runner.close()
     ok = True
-    if rp.get('dir') == 'cfd':
-        hs = [int(h) for h in rp['hs']]
-        vec = U.cfd_vector(p, n, hs)
-        sca = U.cfd_scalar(p, n, hs)
+    for sig, what, _ in out['violations']:
+        print('direct check fails:', sig, '-', what)
+        ok = False
+    vec, dvec, st = out['vec'], out['dvec'], out['states']
+    if vec is None or dvec is None:
+        return False
+    if hs:
         print('coordinates_from_distances:', vec)
-        print('coordinate_from_distance  :', sca)
-        ok = ok and vec == sca
-        if all(x >= 0 for r in vec for x in r):
-            bad = C.coq_mismatches(IMPORTS, CFD_FN, CFD_TY, CFD_RES,
-                                   [(C.Nat(p), C.Nat(n), U.nlist(hs))], [U.nrows(vec)])
-            print('model:', C.coq_eval(IMPORTS, f'coordinates_from_distances {p} {n} {C.coq(U.nlist(hs))}'))
-            ok = ok and not bad
-        else:
-            ok = False
-        sub = common_report(rep, p, n, hs, vec, [], [])
-        ok = ok and sub
-    else:
-        cells = [[int(x) for x in c] for c in rp['cells']]
-        dvec, untouched = U.dfc_vector(p, cells)
-        dsca, st = U.dfc_scalar(p, cells)
-        print('distances_from_coordinates:', dvec)
-        print('distance_from_coordinate  :', dsca, 'argument afterwards:', st)
-        ok = ok and dvec == dsca and untouched
-        if all(d >= 0 for d in dvec) and all(x >= 0 for s in st for x in s):
-            bad = C.coq_mismatches(IMPORTS, DFC_FN, DFC_TY, DFC_RES,
-                                   [(C.Nat(p), U.nrows(cells))], [(U.nlist(dvec), U.nrows(st))])
-            print('model:', C.coq_eval(IMPORTS, f'({DFC_FN}) ({p}%nat, {C.coq(U.nrows(cells))})'))
-            ok = ok and not bad
-        else:
-            ok = False
-        sub = common_report(rep, p, n, [], [], cells, dvec)
-        ok = ok and sub
+        bad = C.coq_mismatches(IMPORTS, CFD_FN, CFD_TY, CFD_RES,
+                               [(C.Nat(p), C.Nat(n), U.nlist(hs))], [U.nrows(vec)])
+        print('model:', C.coq_eval(IMPORTS, f'coordinates_from_distances {p} {n} {C.coq(U.nlist(hs))}'))
+        ok = ok and not bad
+    if cells:
+        print('distances_from_coordinates:', dvec, 'argument of the scalar entry afterwards:', st)
+        bad = C.coq_mismatches(IMPORTS, DFC_FN, DFC_TY, DFC_RES,
+                               [(C.Nat(p), U.nrows(cells))], [(U.nlist(dvec), U.nrows(st))])
+        print('model:', C.coq_eval(IMPORTS, f'({DFC_FN}) ({p}%nat, {C.coq(U.nrows(cells))})'))
+        ok = ok and not bad
     return ok
 
 
-def common_report(rep, p, n, hs, vec, cells, dvec):
-    before = len(rep.violations)
-    direct_checks(rep, 'sample', p, n, hs, vec, cells, dvec)
-    for v in rep.violations[before:]:
-        print('direct check fails:', v['signature'], '-', v['what'])
-    return len(rep.violations) == before
